@@ -23,6 +23,8 @@ pub enum TFault {
     Aux(usize, usize),
     /// claimed value k of assertion a += 1 (the statement changes, the trace does not)
     Claim(usize, usize),
+    /// aux column c regenerated from another start value (only its assertion is violated)
+    AuxStart(usize),
 }
 
 fn rands<E: FieldElement>(k: usize) -> Vec<E> {
@@ -45,6 +47,7 @@ fn one<B: BaseF, E: FieldElement<BaseField = B>>(shape: &Arc<Shape>, h: &Honest<
         TFault::Main(c, r) => main[c][r] += B::ONE,
         TFault::Aux(c, r) => aux.as_mut().unwrap()[c][r] += E::ONE,
         TFault::Claim(a, k) => claimed.values[a][k] += B::ONE,
+        TFault::AuxStart(c) => aux = Some(gen_aux_from::<B, E>(shape, &ColMatrix::new(h.main.clone()), &rs, Some(c))),
     }
     // the auxiliary trace is a function of the main trace: a main fault followed by an honest
     // aux computation is the realistic case; aux is recomputed from the faulted main trace
@@ -91,6 +94,7 @@ fn faults(shape: &Shape) -> Vec<TFault> {
             for r in 0..shape.n {
                 f.push(TFault::Aux(c, r));
             }
+            f.push(TFault::AuxStart(c));
         }
     }
     for (a, spec) in shape.asserts.iter().enumerate() {
@@ -110,6 +114,8 @@ fn parse_fault(t: &str) -> TFault {
     let g = |i: usize| nums.get(i).copied().unwrap_or(0);
     if t.starts_with("Main") {
         TFault::Main(g(0), g(1))
+    } else if t.starts_with("AuxStart") {
+        TFault::AuxStart(g(0))
     } else if t.starts_with("Aux") {
         TFault::Aux(g(0), g(1))
     } else if t.starts_with("Claim") {
